@@ -1,0 +1,6 @@
+//go:build !verif
+
+package comet
+
+// verifPoint is a no-op unless built with the tag "verif" (see verif_hooks_on.go).
+func verifPoint(name string) {}
